@@ -100,22 +100,24 @@ pub fn sweep_flavours() -> Outcome {
         return Outcome { obs: 0, violations: vec![Violation { property: "MACHINERY".into(), key: "listeners".into(), msg: e }] };
     }
     let flavour = choose_free(3);
-    // urls: none / one / several / malformed ; connections: none / one / several
-    let u = choose_free(4);
-    let c = choose_free(3);
+    // urls: none / one / several / malformed / empty list ; connections: none / one / several / empty list
+    let u = choose_free(5);
+    let c = choose_free(4);
     explorer::count_step();
     let urls: Option<Vec<String>> = match u {
         0 => None,
         1 => Some(vec!["redis://127.0.0.1:7101".into()]),
         2 => Some(vec!["redis://127.0.0.1:7101".into(), "redis://127.0.0.1:7102/".into()]),
-        _ => Some(vec!["redis://127.0.0.1:notaport".into()]),
+        3 => Some(vec!["redis://127.0.0.1:notaport".into()]),
+        _ => Some(vec![]),
     };
     let conns: Option<Vec<ConnectionInfo>> = match c {
         0 => None,
         1 => Some(vec![ci(7103)]),
-        _ => Some(vec![ci(7103), ci(7102)]),
+        2 => Some(vec![ci(7103), ci(7102)]),
+        _ => Some(vec![]),
     };
-    if flavour == 0 && (u == 2 || c == 2) {
+    if flavour == 0 && (u == 2 || c == 2 || u == 4 || c == 3) {
         // the standalone config names a single url / connection
         return Outcome { obs: 0, violations: vec![] };
     }
@@ -187,8 +189,34 @@ pub fn sweep_flavours() -> Outcome {
         _ => BTreeSet::new(),
     };
     let desc = format!("flavour {} urls {:?} connections {:?}", ["standalone", "cluster", "sentinel"][flavour], urls, conns.as_ref().map(|v| v.iter().map(|c| format!("{:?}", c.addr)).collect::<Vec<_>>()));
+    let empty_list = u == 4 || c == 3;
     match built {
         Err(p) => bad(&mut viol, "panic", format!("{}: panicked: {}", desc, explorer::panic_msg(&p))),
+        // A present but empty list: the statement does not say whether it
+        // "names" servers.  Whatever the answer, nothing but the servers the
+        // other list names (or, with none, the default local server) may be
+        // dialled, and a malformed URL next to it is still an error.
+        Ok(r) if empty_list => {
+            let mut allowed: BTreeSet<u16> = match (u, c) {
+                (1, 3) => [7101].into(),
+                (2, 3) => [7101, 7102].into(),
+                (4, 1) => [7103].into(),
+                (4, 2) => [7103, 7102].into(),
+                _ => BTreeSet::new(),
+            };
+            if allowed.is_empty() {
+                allowed = if flavour == 2 { [6379, 26379].into() } else { [6379].into() };
+            }
+            if u == 3 && r == Ok(()) {
+                bad(&mut viol, "malformed-url-accepted", format!("{}: expected a configuration error, got {:?}", desc, r));
+            }
+            if !dialled.is_subset(&allowed) {
+                bad(&mut viol, "wrong-servers-used", format!("{}: dialled {:?}, at most {:?} are named", desc, dialled, allowed));
+            }
+            if r.is_err() && !dialled.is_empty() {
+                bad(&mut viol, "rejected-config-dialled", format!("{}: rejected with {:?} but dialled {:?}", desc, r, dialled));
+            }
+        }
         Ok(r) => match (urls.is_some(), conns.is_some()) {
             (true, true) => {
                 if r != Err("both".to_string()) {
